@@ -97,10 +97,11 @@ def closePathW : W := cmdWord cClosePath 1
 def closed (r : List (Pt Int)) : Bool :=
   decide (r.length ≥ 4) && (r.head? == r.getLast?)
 
-/-- One line of a (multi)linestring: `MoveTo(ls[0]); LineTo(ls[1:])`; `ls[0]` panics on an empty line. -/
+/-- One line of a (multi)linestring: `MoveTo(ls[0]); LineTo(ls[1:])`; a line without vertices is
+    skipped (since fix 8e178c2; `ls[0]` used to panic). -/
 def encLine (c : Cur) (l : List (Pt Int)) : R (Cur × List W) :=
   match l with
-  | [] => .panic "index out of range [0] with length 0"
+  | [] => .ok (c, [])
   | p :: rest =>
     let m := moveTo c [p]
     let n := lineTo m.1 rest
@@ -122,7 +123,7 @@ def encLines (c : Cur) : List (List (Pt Int)) → R (Cur × List W)
     `Closed()`), `ClosePath`. -/
 def encRing (c : Cur) (r : List (Pt Int)) : R (Cur × List W) :=
   match r with
-  | [] => .panic "index out of range [0] with length 0"
+  | [] => .ok (c, [])   -- a ring without vertices is skipped (since fix 8e178c2; `r[0]` used to panic)
   | p :: rest =>
     let m := moveTo c [p]
     let body := if closed r then rest.dropLast else rest
